@@ -548,4 +548,37 @@ def QState.recovered (s : QState) : Store := (Store.empty.replay s.done).replay 
 /-- the store every acknowledged Put / PutBatch promises: all records, in order -/
 def QState.promised (s : QState) : Store := Store.empty.replay (s.done ++ s.pending)
 
+/-! ### start-up: WHICH records of tmp.data are handed to the writer again (`checkFile` -> `scanFile` -> `deliver`)
+
+  `scanFile` walks tmp.data from offset 0 and calls `deliver` (setIndex + hand-over to the writer's channel) for EVERY
+  record it reads — it does not look at the LevelDB position index. That matters for OVERWRITTEN keys (an account
+  record, key = address, is rewritten by every stable block that changes the account; a block record is rewritten by
+  SetConfirms): the index then holds a position for the key, but it is the position of the OLD value.
+  `redeliver` is that loop at record level, with a Boolean for the variant that skips indexed keys. -/
+
+/-- the records of tmp.data that start-up hands to the writer, in file order.
+    `skipIndexed = false`: the code under test — every record, whatever `stored` says.
+    `skipIndexed = true`: VARIANT seed-C08h (not the code under test; `isStored(flag, key)` in scanFile): a record is
+    skipped when its (flag, key) already has a position in the LevelDB index (`stored`). -/
+def redeliver (skipIndexed : Bool) (stored : StoreKey → Bool) (wal : List Record) : List Record :=
+  wal.filter (fun r => !(skipIndexed && stored (r.flg, r.key)))
+
+/-- the LevelDB position index as a start-up finds it: (flag, key) has a position iff the writer has persisted a
+    record of that key (`done` is the history of completed bitcask puts) -/
+def QState.indexed (s : QState) (k : StoreKey) : Bool := s.done.any (fun r => (r.flg, r.key) == k)
+
+/-- `FileQueue.Start` after the process died in state `s`: the volatile state (pending index, writer's channel) is
+    rebuilt by delivering `redeliver … tmp.data`; tmp.data and the bitcask content stay as they are -/
+def qRestart (skipIndexed : Bool) (s : QState) : QState :=
+  (redeliver skipIndexed s.indexed s.wal).foldl (qDeliver false)
+    { index := [], pending := [], wal := s.wal, done := s.done }
+
+/-- the store after that restart once the writer has drained: bitcask content + the redelivered records, in order -/
+def QState.recoveredBy (skipIndexed : Bool) (s : QState) : Store :=
+  (Store.empty.replay s.done).replay (qRestart skipIndexed s).pending
+
+/-- start-up recovery at protocol level with the same switch (`recover` = `recoverBy false`) -/
+def recoverBy (skipIndexed : Bool) (stored : StoreKey → Bool) (d : Disk) : Disk :=
+  { d with kv := d.kv.replay (redeliver skipIndexed stored d.wal) }
+
 end LemoModel.Wal
